@@ -97,3 +97,58 @@ theorem setBodies_reads (n : Node) (c : List Name) (s : List (String × Graph)) 
     (n.setBodies c s).reads = n.inputNames ++ c := by cases n; rfl
 
 end OV.C07
+
+namespace OV.C07
+
+/-! every name defined once over all scopes (`collectNames` = inputs, initializers, node outputs of a
+graph and of all its bodies) -/
+
+theorem collectNamesNodes_append (d : Nat) (a b : List Node) :
+    collectNamesNodes (d + 1) (a ++ b) = collectNamesNodes (d + 1) a ++ collectNamesNodes (d + 1) b := by
+  simp [collectNamesNodes]
+
+theorem collectNamesNodes_cons (d : Nat) (n : Node) (r : List Node) :
+    collectNamesNodes (d + 1) (n :: r) =
+      (n.outputs ++ n.subs.flatMap fun s => collectNames d s.2) ++ collectNamesNodes (d + 1) r := by
+  simp [collectNamesNodes]
+
+theorem collectNamesNodes_flat (d : Nat) (ns : List Node) (h : ∀ n ∈ ns, n.subs = []) :
+    collectNamesNodes (d + 1) ns = ns.flatMap (·.outputs) := by
+  induction ns with
+  | nil => simp [collectNamesNodes]
+  | cons a r ih =>
+    rw [collectNamesNodes_cons, ih (fun n hn => h n (by simp [hn])), h a (by simp)]
+    simp
+
+theorem collectNamesNodes_filter_sub (d : Nat) (P : Node → Bool) (ns : List Node) :
+    ∀ x ∈ collectNamesNodes (d + 1) (ns.filter P), x ∈ collectNamesNodes (d + 1) ns := by
+  induction ns with
+  | nil => intro x hx; simpa using hx
+  | cons a r ih =>
+    intro x hx
+    rw [collectNamesNodes_cons]
+    by_cases hp : P a = true
+    · simp only [List.filter_cons, hp, if_true] at hx
+      rw [collectNamesNodes_cons] at hx
+      rcases List.mem_append.mp hx with h | h
+      · exact List.mem_append.mpr (Or.inl h)
+      · exact List.mem_append.mpr (Or.inr (ih x h))
+    · simp only [List.filter_cons, hp, Bool.false_eq_true, if_false] at hx
+      exact List.mem_append.mpr (Or.inr (ih x hx))
+
+theorem collectNamesNodes_filter_nodup (d : Nat) (P : Node → Bool) (ns : List Node)
+    (h : (collectNamesNodes (d + 1) ns).Nodup) : (collectNamesNodes (d + 1) (ns.filter P)).Nodup := by
+  induction ns with
+  | nil => simpa using h
+  | cons a r ih =>
+    rw [collectNamesNodes_cons] at h
+    obtain ⟨h1, h2, h3⟩ := List.nodup_append.mp h
+    by_cases hp : P a = true
+    · simp only [List.filter_cons, hp, if_true]
+      rw [collectNamesNodes_cons]
+      apply List.nodup_append.mpr
+      exact ⟨h1, ih h2, fun x hx y hy => h3 x hx y (collectNamesNodes_filter_sub d P r y hy)⟩
+    · simp only [List.filter_cons, hp, Bool.false_eq_true, if_false]
+      exact ih h2
+
+end OV.C07
